@@ -28,7 +28,7 @@ FAMILY = "rdb"
 MARKER = b"__FERROUS_STREAM_MARKER__"
 TOL = 40                      # ms: clock granularity (the stamp is floor(now)+floor(ttl)) plus scheduling noise between two clock reads
 PENDING = os.path.join(VERIF, "pending_repo_patches", "C09_findings.json")
-BIG_UNORDERED = 1200          # set/hash/zset above this many members are not decoded by the Lean model in the quick tier (quadratic map model)
+BIG_UNORDERED = {"quick": 1200, "thorough": 17000}   # set/hash/zset above this many members are not decoded by the Lean model (its association-list maps are quadratic)
 
 
 # ------------------------------------------------------------------ source facts (tie (a), done here: translator is shared)
@@ -479,10 +479,10 @@ class C09:
         if not record:
             return new, diffs
         # ---- correspondence (i): the model reads the real file
-        big = any(e["ty"] in "THZ" and len(e["val"]) > BIG_UNORDERED for _, es in ds for e in es)
-        do_lean = case.get("lean", True) and not (big and rep.tier == "quick")
+        big = any(e["ty"] in "THZ" and len(e["val"]) > BIG_UNORDERED[rep.tier] for _, es in ds for e in es)
+        do_lean = case.get("lean", True) and not big
         if not do_lean:
-            rep.count("lean-decode-skipped(big unordered collection, quick tier)")
+            rep.count("lean-decode-skipped(big unordered collection)")
         if do_lean and a is not None:
             now = (tl0 + tl1) // 2
             r = self.lean_dec(now, f)
@@ -925,7 +925,7 @@ def main(tier, seed):
         "sorted-set scores are 8 opaque bytes in the model; NaN scores are excluded (the engine's ordering of NaN is C04's subject)",
         "a stream's last-generated ID and its consumer groups are not part of the dump format and not part of the modelled dataset (the property lists entries, IDs and fields)",
         "the list/zset load loops are summarised (first element, then the rest at once); justified in Model/Rdb.lean and validated by the corrupted-file correspondence",
-        "quick tier: sets/hashes/sorted sets above %d members are checked real->real and Lean-encoder->real-loader only (the model's association-list maps are quadratic); thorough tier decodes them too" % BIG_UNORDERED,
+        "sets/hashes/sorted sets above %d (quick) / %d (thorough) members are checked real->real and Lean-encoder->real-loader only (the model's association-list maps are quadratic); lists, strings and streams are decoded by the model at every size" % (BIG_UNORDERED["quick"], BIG_UNORDERED["thorough"]),
         "bytes are modelled as Nat; the harness sends values < 256 only",
     ]
     facts = source_facts()
